@@ -6,6 +6,26 @@ _COMMON_NOTE = ("Trusted: Lean kernel (axioms propext, Classical.choice, Quot.so
                 "zstd/f64/tokio/OS modelled not verified. ")
 
 PROPS = {
+    "C01": {
+        "suites": ["cluster", "pair"],
+        "level_text": "C01_handshake_progress (member-level strict progress of a handshake step for every sender/receiver copy, digest and truncation point), C01_handshake_monotone, potential argument C01_rank_bounded / C01_rank_of_reachable / C01_rank_strict / C01_rank_mono / C01_progress_steps_bounded (the number of progressing handshakes after writes stop is bounded by copies x ((V+1)^2 - 1) whatever faults happened before), C01_fixed_point_is_converged. Tied by cluster schedules with adversarial prefixes (loss, duplication, reordering, partition, truncation by large values, GC, clock advances) followed by a fair loss-free suffix, with a per-handshake progress monitor and a final convergence check on the real nodes.",
+        "level_note": _COMMON_NOTE + "PARTIAL: (a) that the first member in staleness order always gets at least one op in a multi-member handshake (the property's 'digest and any single key-value fit' assumption) and (b) the connectivity/fairness argument turning bounded progress into convergence of the whole cluster are not mechanised; both are exercised by the fair suffix of the cluster suite and its monitors.",
+        "assumptions": ["the digest and any single key-value fit one datagram", "members not scheduled for deletion / not removed (advertised)"],
+        "partial": "multi-member budget argument and fairness/connectivity not mechanised",
+    },
+    "C02": {
+        "suites": ["cluster", "pair", "apply"],
+        "level_text": "C02_exact_up_to_frontier_partial / C02_no_resurrection_partial: in every state reachable by the copy-level step relation XReach (owner writes, GC of any copy at any time, copies created/removed, deltas computed from any copy for any digest and truncation point, any delta delivered to any copy any number of times in any order) in which no delivery matches the KF-1 pattern, every copy is exact up to its frontier; proved by an inductive system invariant (Lemmas/SystemInv.lean) over an abstract ledger layer (Lemmas/Ledger.lean) to which the executable model is connected by refinement lemmas (Lemmas/LedgerRefine.lean). C02_counterexample: the full statement is false of model and code (KF-1), C02_counterexample_is_kf1. Tied by cluster/pair/apply suites; a ledger monitor checks the statement on every copy of the real nodes after every step, with taint tracking that separates KF-1 from any other violation.",
+        "level_note": _COMMON_NOTE + "PARTIAL: proved under the hypothesis that no delivery matches the KF-1 pattern (receiver watermark above both the delta's max version and its sender's horizon); without it the property is false (known finding KF-1, not repaired: every repair found contradicts C14/C01).",
+        "assumptions": ["every ChitchatId is used by one incarnation", "no KF-1-pattern delivery (else known finding)"],
+        "partial": "holds outside the KF-1 pattern only; the unrestricted statement is false (known finding)",
+    },
+    "C03": {
+        "suites": ["cluster", "pair", "apply", "wire"],
+        "level_text": "C03_integrity (every entry of every copy in every reachable state, KF-1 deliveries included, is the owner's write at that version; no copy's max version or watermark exceeds the owner's max version), C03_owner_is_frontier, C03_deltas_not_ahead, C03_gossip_never_changes_owner, C03_no_crosswire, C03_heartbeat_bound; same inductive system invariant as C02 (weak part, unconditional). Tied by the cluster suite's ledger monitor (entries vs the owner's recorded writes, max version and heartbeat bounds) and the wire/apply suites (op grouping per member).",
+        "level_note": _COMMON_NOTE + "The heartbeat bound is proved at the level of try_set_heartbeat (a recorded heartbeat is a reported one); its system-level induction is covered by the monitor. Assumes one incarnation per ChitchatId.",
+        "assumptions": ["every ChitchatId is used by one incarnation"],
+    },
     "C04": {
         "suites": ["apply", "node", "pair"],
         "level_text": "Theorems for every copy and every delta (C04_apply_monotone, C04_frontier_monotone, C04_key_version_monotone, C04_cluster_apply_no_panic), every local write (C04_*_fresh_version, C04_set_same_value_noop) and GC (C04_gc_monotone), unbounded; model tied to state.rs by exhaustive small-scope + random differential runs of apply_delta, the local write API and the sender/receiver pair.",
